@@ -3,7 +3,7 @@
    The proof does not depend on the hash key, on state_eqb being exact, or on the
    reduction `norm` being complete: candidate sets only ever contain states the machine
    reaches. *)
-Require Import Bytes Lifecycle.
+Require Import Bytes Lifecycle LifecycleSteps.
 From Coq Require Import List Bool Arith Lia FMapPositive.
 Import ListNotations.
 
@@ -56,11 +56,11 @@ Proof.
   destruct (length (rx s) <? cap); simpl; intros H; [exact H|contradiction].
 Qed.
 
-Lemma sys_next_gen_incl s p : In p (sys_next_gen false s) -> In p (sys_next s).
+Lemma sys_core_incl s p : In p (sys_core false s) -> In p (sys_next s).
 Proof.
-  unfold sys_next, sys_next_gen. rewrite !in_app_iff.
-  intros [H|[H|[H|H]]]; auto.
-  right. right. left. apply step_read_gen_incl. exact H.
+  unfold sys_next, sys_next_gen, sys_core. rewrite !in_app_iff.
+  intros [H|[H|[H|H]]]; auto 6.
+  left. right. right. left. apply step_read_gen_incl. exact H.
 Qed.
 
 (* ---- each stage of `norm` is the identity or one Tau step ---- *)
@@ -73,19 +73,19 @@ Proof.
 Qed.
 
 Lemma in_sys_connect s p : In p (step_connect s) -> In p (sys_next s).
-Proof. unfold sys_next, sys_next_gen. rewrite !in_app_iff. auto. Qed.
+Proof. unfold sys_next, sys_next_gen, sys_core. rewrite !in_app_iff. auto 12. Qed.
 Lemma in_sys_exec s p : In p (step_exec s) -> In p (sys_next s).
-Proof. unfold sys_next, sys_next_gen. rewrite !in_app_iff. auto. Qed.
+Proof. unfold sys_next, sys_next_gen, sys_core. rewrite !in_app_iff. auto 12. Qed.
 Lemma in_sys_read s p : In p (step_read s) -> In p (sys_next s).
-Proof. unfold sys_next, sys_next_gen. rewrite !in_app_iff. auto. Qed.
+Proof. unfold sys_next, sys_next_gen, sys_core. rewrite !in_app_iff. auto 12. Qed.
 Lemma in_sys_linger s p : In p (step_linger s) -> In p (sys_next s).
-Proof. unfold sys_next, sys_next_gen. rewrite !in_app_iff. auto 6. Qed.
+Proof. unfold sys_next, sys_next_gen, sys_core. rewrite !in_app_iff. auto 12. Qed.
 Lemma in_sys_send s p : In p (step_send s) -> In p (sys_next s).
-Proof. unfold sys_next, sys_next_gen. rewrite !in_app_iff. auto 7. Qed.
+Proof. unfold sys_next, sys_next_gen, sys_core. rewrite !in_app_iff. auto 12. Qed.
 Lemma in_sys_ping s p : In p (step_ping s) -> In p (sys_next s).
-Proof. unfold sys_next, sys_next_gen. rewrite !in_app_iff. auto 8. Qed.
+Proof. unfold sys_next, sys_next_gen, sys_core. rewrite !in_app_iff. auto 12. Qed.
 Lemma in_sys_app s p : In p (step_app s) -> In p (sys_next s).
-Proof. unfold sys_next, sys_next_gen. rewrite !in_app_iff. auto 10. Qed.
+Proof. unfold sys_next, sys_next_gen, sys_core. rewrite !in_app_iff. auto 12. Qed.
 
 Lemma norm_ping_ok s : tau_or_id s (norm_ping s).
 Proof.
@@ -126,6 +126,32 @@ Proof.
   apply tau_or_id_wexec, norm_ping_ok.
 Qed.
 
+(* losing all unread lines at once is losing them one by one *)
+Lemma set_inbuf_nil_id s : inbuf s = [] -> set_inbuf [] s = s.
+Proof. destruct s; simpl; intros ->; reflexivity. Qed.
+
+Lemma drop_all_reach n : forall s, length (inbuf s) = n -> peer_closed s = true -> wexec s [] (set_inbuf [] s).
+Proof.
+  induction n as [|n IH]; intros s Hl Hp.
+  - destruct (inbuf s) eqn:E; [|discriminate]. rewrite set_inbuf_nil_id by exact E. apply wexec_nil.
+  - assert (Hne : inbuf s <> []) by (intros E; rewrite E in Hl; discriminate).
+    eapply wexec_tau with (s1 := set_inbuf (removelast (inbuf s)) s).
+    + left. unfold sys_next, sys_next_gen. apply in_or_app. right. unfold step_net. rewrite Hp.
+      destruct (inbuf s); [congruence|]. left. reflexivity.
+    + replace (set_inbuf [] s) with (set_inbuf [] (set_inbuf (removelast (inbuf s)) s)) by (destruct s; reflexivity).
+      apply IH; [|exact Hp].
+      cbn [inbuf set_inbuf]. pose proof (removelast_shorter (inbuf s) Hne) as X. rewrite Hl in X. lia.
+Qed.
+
+Lemma chk_next_reach s l s' : In (l, s') (chk_next s) ->
+  In (l, s') (sys_next s) \/ (l = Tau /\ wexec s [] s').
+Proof.
+  unfold chk_next. rewrite in_app_iff. intros [H|H]; [left; apply sys_core_incl; exact H|].
+  unfold step_net_all in H. destruct (peer_closed s && negb (is_nil (inbuf s))) eqn:E; [|contradiction].
+  destruct H as [H|[]]. injection H as <- <-. right. split; [reflexivity|].
+  apply andb_prop in E. destruct E as [E _]. eapply drop_all_reach; eauto.
+Qed.
+
 (* ---- successors computed by the checker are reached by the machine ---- *)
 (* vexec s tr s': some execution from s to s' whose visible part is tr *)
 Definition vexec (s : state) (tr : list label) (s' : state) : Prop :=
@@ -159,8 +185,8 @@ Lemma tau_succs_reach s s' : In s' (tau_succs s) -> vexec s [] s'.
 Proof.
   unfold tau_succs. rewrite in_map_iff. intros [[l s1] [E H]]. simpl in E. subst s'.
   apply filter_In in H. destruct H as [H T]. simpl in T.
-  apply sys_next_gen_incl in H.
   eapply vexec_snoc_hidden; [|apply wexec_vexec_nil, norm_reach].
+  apply chk_next_reach in H. destruct H as [H|[-> H]]; [|apply wexec_vexec_nil; exact H].
   apply hidden_cases in T. destruct T as [T|[Tn Tv]].
   - subst l. exists []. split; [reflexivity|]. eapply wexec_tau; [left; exact H|apply wexec_nil].
   - exists [l]. split; [exact Tv|].
@@ -176,8 +202,9 @@ Proof.
   - rewrite in_map_iff in H. destruct H as [[l1 s1] [E H]]. simpl in E. subst s'.
     apply filter_In in H. destruct H as [H T]. simpl in T. apply label_eqb_eq in T. subst l1.
     eapply vexec_snoc_hidden; [|apply wexec_vexec_nil, norm_reach].
+    apply chk_next_reach in H. destruct H as [H|[E _]]; [|congruence].
     exists [l]. split; [exact Hv|].
-    eapply wexec_vis; [exact Hnt|left; apply sys_next_gen_incl; exact H|apply wexec_nil].
+    eapply wexec_vis; [exact Hnt|left; exact H|apply wexec_nil].
   - destruct (env_step l s) as [s0|] eqn:E; [|contradiction].
     destruct H as [H|[]]. subst s'.
     eapply vexec_snoc_hidden; [|apply wexec_vexec_nil, norm_reach].
